@@ -52,8 +52,17 @@ def _render(chart):
     """str / repr of the chart, of every track and of EVERY event (in list order): how one thing renders must not depend on
     what was rendered before it."""
     h = hashlib.sha256()
-    h.update(str(chart).encode())
+    # (repr first, of the chart and of every track, before anything else is rendered or read: rendering with str() reads
+    #  derived attributes, and a repr that shows what has been READ since parsing is exactly what must not happen - round 11,
+    #  seeded/C19k: repr handed to the __dict__ mixin, which then shows the cached_property values)
     h.update(repr(chart).encode())
+    for _, dd in chart.instrument_tracks.items():
+        for _, t in dd.items():
+            h.update(repr(t).encode())
+    h.update(repr(chart.sync_track).encode())
+    h.update(repr(chart.global_events_track).encode())
+    h.update(repr(chart.metadata).encode())
+    h.update(str(chart).encode())
     for _, dd in chart.instrument_tracks.items():
         for _, t in dd.items():
             h.update(str(t).encode())
@@ -256,9 +265,10 @@ def run_sequence(sid, ops, text, other, want=None):
     # either) fills the same caches as observing the chart and would hide a cache that leaks into equality
     untouched = parse(text, want)
     recs = []
+    # the first rendering is taken from the chart as parsed, before it has been looked at in any other way: looking is read-only use
+    render_before = _render(chart)
     before = observe.digest(observe.obs_chart(chart))
     twin_before = observe.digest(observe.obs_chart(twin))
-    render_before = _render(chart)
     results = []
     for k, op in enumerate(ops):
         if op[0] in ("assign-event", "assign-track"):
